@@ -48,6 +48,12 @@ CHECKS["C14"] = dict(
    text="For every base text (25 smallest corpus files quick / all thorough, plus every expression template) the original layout, 7 uniform fillers, one long line and every inter-token gap replaced by each of 7 fillers (space, LF, CRLF, tab, mixed, multi-line block comment, line comment): every AST node range has start<=end, lies inside the document, encloses its parts, siblings are disjoint and ordered, every identifier-bearing node's range is exactly the token spelling that name (per an independent tokenizer); every diagnostic location, folding range, definition/reference location and quick-fix edit range lies inside the document.",
    note="ASCII layouts only (column unit for non-ASCII text is not fixed by the property). The parser's deliberate choice to start a class's type-definition range at its type parameters is treated as containment, not as sibling overlap.",
    design_ref="DESIGN.md §5 C14")
+CHECKS["C07"] = dict(
+   category="exploration",
+   technique="bounded-exhaustive enumeration of pattern matrices over a type universe, decided by a brute-force matcher over all values (no shared code with the checker's matrix algorithm)",
+   text="All ordered arm lists of length <=3 (quick) / <=4 (thorough) over every pattern of constructor depth <=2 (3 where a struct/option is nested), incl. nested and top-level or-patterns with and without an irrefutable alternative, for 9 scrutinee types (2- and 3-variant enums, recursive enum, struct, enum of struct, generic option at two instantiations, two tuple types), plus every pattern as a destructuring let and as an if-let: the match/let is rejected as non-exhaustive iff some value (all values up to depth 4 enumerated) is matched by no arm; every reported counterexample denotes at least one value and one that no arm matches; an if-let is flagged useless iff its pattern matches every value.",
+   note="Arm-redundancy is not asserted (not in the statement); counterexample read existentially; type universe and pattern depth are the stated bounds.",
+   design_ref="DESIGN.md §5 C07")
 NOT_YET = "check not built yet in this round (planned: see DESIGN.md §5)"
 
 hooks_commits = subprocess.run(["git","-C","/repo","log","--format=%H %s"],capture_output=True,text=True).stdout.splitlines()
